@@ -11,9 +11,13 @@ EXPLANATION = (
     "change the key; (R3) who-may-write: the key's fields are written only by GGMPuncturableKey::new / ::puncture "
     "(and import under key-sync); inside puncture every write is dominated by `not already punctured` and "
     "`covering prefix found`, and no error return is reachable after the first write (failed punctures leave the "
-    "key unchanged); (R4) eval and puncture obtain the covering node from the same lookup function and derive "
-    "values by the same bitwise PRG descent from the covering seed over exactly the bits after the covering "
-    "prefix (offset = length of the found prefix on both sides); (R5) every successful puncture passes through the removal of the covering node from the retained set (otherwise the punctured input stays evaluable); (R6) the initial node for bit b is derived with generator b from the sampled root secret (two different generators - otherwise sibling inputs share values); (R7) evaluation depends, by data and control, only on the retained prefixes, the generators and the input - not on the list of punctured inputs.  NOT decided: that exactly the punctured inputs "
+    "key unchanged); (R4) eval and puncture obtain the covering node from the same lookup function; every PRG "
+    "descent in them (a loop or fold whose accumulator is fed to the generator, wherever it is written) starts from the "
+    "covering node's seed and traverses, in order, exactly the bits from offset len(found prefix) on; each traversed bit "
+    "selects one of two different generators, with the same bit -> generator table on both sides; (R5) on the final key "
+    "state of GGM::puncture narrowed to its Ok alternative, `prefixes` is the initial set with the covering node removed "
+    "(the position the lookup returned, or the position of the element whose bits equal the found prefix) and then only "
+    "extended (otherwise the punctured input stays evaluable); (R6) the initial node for bit b is derived with generator b from the sampled root secret (two different generators - otherwise sibling inputs share values); (R7) evaluation depends, by data and control, only on the retained prefixes, the generators and the input - not on the list of punctured inputs.  NOT decided: that exactly the punctured inputs "
     "are removed and every other value persists over all puncture histories (correctness of the co-path algorithm), "
     "distinctness of values - these need execution or a proof of the algorithm and are outside this family.")
 ASSUMPTIONS = ["bitvec split_at/starts_with/to_bitvec behave as documented (models in sv/models.py)"]
@@ -112,11 +116,14 @@ def run(ctx):
             sample=sorted({v.split("::")[-1] + ":bb%s" % k[1] for k, v in ws}))
     okg, oke = True, True
     badg, bade = [], []
+    kpfx = "self.%d.%d" % (fidx(ctx, GGM, "key"), fidx(ctx, KEY, "prefixes"))
     for (fk, b, loc, path), fname in ws:
         fs = Q.closure(eng, eng.facts_at(fk, b))
         not_punct = any(t.op == "iter_any" and rel == "eq" and v == 0 for t, rel, v in fs)
-        found = any(t.op == "discr" and rel == "eq" and v == 1 and t.args[0].op == "enum" and
-                    any(a[2] and a[2][0].op == "iter_position" for a in t.args[0].args[1] if a[0] == 1) for t, rel, v in fs)
+        # a search of the retained node set has succeeded: its position is known to be below the set's size
+        found = any(t.op == "lt" and rel == "eq" and v == 1 and t.args[0].op == "iter_position" and t.args[1].op == "len_iter" and
+                    all(p == kpfx or p.startswith(kpfx + ".") for p in Q.params(Q.leaves(t.args[0].args[0]))) and
+                    Q.params(Q.leaves(t.args[0].args[0])) for t, rel, v in fs)
         if not (not_punct and found):
             okg = False
             badg.append("%s bb%s" % (fname.split("::")[-1], b))
@@ -217,17 +224,82 @@ def covering_node(P):
     return P
 
 
+PRG = "GGMPseudorandomGenerator::eval"
+
+
+def _strip(t):
+    n = 0
+    while Q.is_t(t) and t.op in ("refv", "deref", "conv", "cloned", "copied") and len(t.args) == 1 and n < 8:
+        t = t.args[0]
+        n += 1
+    return t
+
+
+def _traversed(it):
+    """what an iterator term walks completely and in order, down to a (possibly sliced) collection"""
+    n = 0
+    while Q.is_t(it) and n < 16:
+        n += 1
+        if it.op in ("iter", "cloned_iter", "refv", "deref", "copied", "conv") and it.args:
+            it = it.args[0]
+        elif it.op == "adapted" and it.args[1] in ("peekable", "by_ref", "fuse"):
+            it = it.args[0]
+        else:
+            break
+    return it if Q.is_t(it) else None
+
+
+def prg_descents(eng):
+    """every PRG descent in the analysed root: a loop (or fold) whose accumulator is fed to the generator, as
+    (event, init, traversed collection or None, {bit value: generator reference})"""
+    from ..terms import PHI
+    out = []
+    for e in Q.calls(eng, PRG):
+        acc = _strip(e["argv"][1])
+        fv = Q.fold_view(acc, eng)
+        if fv is None:
+            out.append((e, None, None, {}))
+            continue
+        init = _strip(fv[0])
+        it = fv[2]
+        if it is None and acc.op == "phi":
+            # the body selects the generator by the traversed bit (control dependence only): take the loop's own iterator
+            ps = Q.phi_site(eng, acc.args[0])
+            if ps is not None:
+                its = [x["argv"][0] for x in Q.calls(eng, "Iterator::next") if x["frame"] == ps[0] and x["argv"] and x["argv"][0] is not None]
+                its = list({x.id: x for x in its}.values())
+                if len(its) == 1:
+                    it = its[0]
+        whole = _traversed(it) if it is not None else None
+        sel = {}
+        g = e["argv"][0]
+        if Q.is_t(g) and g.op == "phi":
+            ps = Q.phi_site(eng, g.args[0])
+            for k, x in (PHI.get(g.args[0]) or {}).items():
+                bit = None
+                for t, rel, v in (eng.facts_at(ps[0], k) if ps is not None else []):
+                    if Q.contains(t, lambda z: z.op == "elem") and _strip(t).op == "elem":
+                        if rel == "eq" and v in (0, 1):
+                            bit = v
+                        elif rel == "notin" and tuple(v) == (0,):
+                            bit = 1
+                        elif rel == "notin" and tuple(v) == (1,):
+                            bit = 0
+                sel[bit] = Q.path_of(x) or S(x, 5)
+        out.append((e, init, whole, sel))
+    return out
+
+
 def descent_rules(ctx, rule):
     # ---- R4 one lookup, same descent -------------------------------------------------------------------------
     sides = {}
     for root in (EVAL, PUNC):
         eng, ret, st, fr = ctx.root(root)
         fp = Q.calls(eng, "GGMPuncturableKey::find_prefix")
-        be = Q.calls(eng, "GGM::bit_eval")
-        sp = Q.calls(eng, "split_at")
+        ds = prg_descents(eng)
         at = ctx.fn(root).loc
-        if len(fp) != 1 or not be or not sp:
-            ctx.add(rule, root + "#shape", False, "expected one find_prefix, bit_eval and split_at (found %d/%d/%d)" % (len(fp), len(be), len(sp)), at)
+        if len(fp) != 1 or not ds:
+            ctx.add(rule, root + "#shape", False, "expected one prefix lookup and at least one PRG descent (found %d/%d)" % (len(fp), len(ds)), at)
             continue
         okp = Q.variant(fp[0]["result"], 0)
         P = okp[2][0] if okp and okp[2] else None
@@ -238,22 +310,35 @@ def descent_rules(ctx, rule):
         P = covering_node(P)
         bits = field(field(P, 0), 0)
         seed = field(P, 1)
-        off_ok = all(e["argv"][1].op == "len" and e["argv"][1].args[0] is bits for e in sp)
-        seed_ok = all(e["argv"][2] is seed for e in be)
-        desc_ok = all(e["argv"][1].op == "slice" and e["argv"][1].args[1].op == "len" and e["argv"][1].args[1].args[0] is bits for e in be)
-        ctx.add(rule, root + "#descent-from-covering-node", off_ok and seed_ok and desc_ok,
-                "values must be derived from the covering node's seed over exactly the bits after the covering prefix "
-                "(split offset = len of the found prefix: %s; seed is the found seed: %s; descent over the tail: %s); offsets %s"
-                % (off_ok, seed_ok, desc_ok, [S(e["argv"][1], 4) for e in sp]), sp[0]["at"],
-                sample={"offset": [S(e["argv"][1], 4) for e in sp], "seed": S(seed, 4)})
-        sides[root] = (fp[0]["callee"], be[0]["callee"], [a for a in fp[0]["argv"][:1]])
+        seed_ok = all(init is seed for _, init, _, _ in ds)
+        offs = []
+        desc_ok = True
+        for e, init, whole, sel in ds:
+            if whole is None or whole.op != "slice":
+                desc_ok = False
+                offs.append(S(whole, 4) if whole is not None else "?")
+                continue
+            lo = whole.args[1]
+            offs.append(S(lo, 4))
+            if not (lo.op == "len" and lo.args[0] is bits):
+                desc_ok = False
+        ctx.add(rule, root + "#descent-from-covering-node", seed_ok and desc_ok,
+                "values must be derived from the covering node's seed over exactly the bits after the covering prefix, in "
+                "order (seed is the found seed: %s; descent over the tail starting at len of the found prefix: %s); descents over %s"
+                % (seed_ok, desc_ok, offs), ds[0][0]["at"],
+                sample={"offset": offs, "seed": S(seed, 4)})
+        sels = [tuple(sorted((str(k), v) for k, v in sel.items())) for _, _, _, sel in ds]
+        sides[root] = (fp[0]["callee"], sels[0] if len(set(sels)) == 1 else tuple(sels))
+        ctx.add(rule, root + "#bit-selects-generator", len(set(sels)) == 1 and len(ds[0][3]) == 2 and None not in ds[0][3] and
+                len(set(ds[0][3].values())) == 2,
+                "each traversed bit must select one of two different generators: %s" % (sels,), ds[0][0]["at"])
         # lookup is over the whole key and the input's bits
         inp = Q.params(Q.leaves(fp[0]["argv"][1]))
         ctx.add(rule, root + "#lookup-on-input-bits", "input" in inp or any(p.startswith("input") for p in inp),
                 "the prefix lookup must be made on the bits of the input; depends on %s" % sorted(inp), fp[0]["at"])
     if len(sides) == 2:
-        ctx.add(rule, "eval~puncture#same-lookup-and-descent", sides[EVAL][:2] == sides[PUNC][:2],
-                "eval and puncture must use the same lookup and PRG-descent functions: %s vs %s" % (sides[EVAL][:2], sides[PUNC][:2]),
+        ctx.add(rule, "eval~puncture#same-lookup-and-descent", sides[EVAL] == sides[PUNC],
+                "eval and puncture must use the same lookup function and the same bit -> generator selection: %s vs %s" % (sides[EVAL], sides[PUNC]),
                 ctx.fn(PUNC).loc)
 
 
